@@ -11,6 +11,13 @@
      R <bits> <nsort> {sort}* <skip> <limit> <nops> {op}*     one compiled query, executed and mutated by the caller
         op: q (QueryIdsC) | w (QueryWithCursorC) | i (IterateIds) | o (objectz QueryEntitiesC) | x (unrelated activity)
             | S <z> (SetSkip) | L <z> (SetLimit) | A <nsort> {sort}* (AdoptSortFields) | P <bits> (SetPredicate)
+     G <hexdigits|e>                            tag masks of the rows (harness side only; ignored here)
+     P <bits> <nsort> {sort}* <skip> <limit> <mult|e> <provider>     QueryWithCursorC over a cursor provider: mult has one
+        digit per row = how often the provider's sources name the row; the raw candidate list handed to the model names
+        every row that often, in descending row order (order and repetitions are irrelevant: Properties/C02.v
+        provider_answer_depends_on_candidate_set_only)
+   Output for P:    query=<count>:<ids> spec=<count>:<ids> sorting=<count>:<ids> legacy=<count>:<ids> setonly=<0|1>
+        setonly: the same query over the duplicate-free ascending candidate list gives the same answer
    Output for Q/X:  query=<count>:<ids> spec=<count>:<ids> iter=<ids> iterspec=<ids> legacy=<count>:<ids> legiter=<ids> sorting=<count>:<ids> nan=<0|1>
    Output for R:    n=<runs> { a<k>=<answer> s<k>=<specified answer> e<k>=<skip>/<limit> }    k-th execution;
         answer = <count>:<ids>, for the iteration i:<ids>; e<k> = effective paging of the query object after it
@@ -95,6 +102,31 @@ let () =
     | "V" :: tier :: ext :: _ ->
         view := (int_of_string tier, ext = "1");
         print_endline "V"
+    | "G" :: _ -> print_endline "G"
+    | "P" :: bits :: ns :: rest ->
+        let (fs, rest') = sort_fields (int_of_string ns) rest [] in
+        let (tier, ext) = !view in
+        let sv = { sv_child = tier > 0; sv_extended = ext } in
+        let lv = !levels in
+        let present (r : row) = List.assoc r.r_id lv >= tier in
+        let rows = !current in
+        let matches = pred_of_bits bits in
+        let (sk, lim, mult) = (match rest' with [a; b; m; _] -> (opt_z a, opt_z b, m) | _ -> failwith "bad provider query") in
+        let p = { pg_skip = sk; pg_limit = lim } in
+        let rec rep k x acc = if k <= 0 then acc else rep (k - 1) x (x :: acc) in
+        (* raw candidates: descending row order, every row as often as it is named *)
+        let cand = List.fold_left (fun acc (i, r) -> rep (Char.code mult.[i] - 48) r.r_id acc) []
+                     (List.mapi (fun i r -> (i, r)) rows) in
+        let cand_set = List.sort_uniq compare cand in
+        let got = provider_query_ids sv present cand matches fs p rows in
+        let again = provider_query_ids sv present cand_set matches fs p rows in
+        let legacy_matches (r : row) = in_store sv present r && cand_mem cand r && matches r in
+        Printf.printf "query=%s spec=%s sorting=%s legacy=%s setonly=%s\n"
+          (res_str got)
+          (res_str (provider_query_spec sv present cand matches fs p rows))
+          (res_str (provider_scan_sorting sv present cand matches fs p rows))
+          (res_str (query_ids_legacy legacy_matches fs p rows))
+          (bool_str (got = again))
     | kind :: bits :: ns :: rest when kind = "Q" || kind = "X" || kind = "R" ->
         let (fs, rest') = sort_fields (int_of_string ns) rest [] in
         let (tier, ext) = !view in
